@@ -41,6 +41,10 @@ THE SOFTWARE.
 #include <amgcl/util.hpp>
 
 /// Primary namespace.
+#ifdef AMGCL_VERIF
+namespace amgcl_verif { struct access; }
+#endif
+
 namespace amgcl {
 
 /// Algebraic multigrid method.
@@ -311,6 +315,9 @@ class amg {
             return b;
         }
     private:
+#ifdef AMGCL_VERIF
+        friend struct ::amgcl_verif::access;
+#endif
         struct level {
             size_t m_rows, m_nonzeros;
 
